@@ -4,7 +4,7 @@
 From Coq Require Import List Arith NArith ZArith Bool.
 From RecordUpdate Require Import RecordSet.
 From SV Require Import Base.Base IR.State IR.NS IR.Ops Xform.Clone Xform.Strs Xform.Xform
-  Proofs.Frame Proofs.Inv1a Proofs.Inv2a.
+  Proofs.Frame Proofs.Inv1a Proofs.Inv2a Proofs.InvP Proofs.InvW.
 Import ListNotations RecordSetNotations.
 
 Definition not_stuck (r : XR) : Prop := snd r <> Some (XE XStuck).
@@ -141,6 +141,13 @@ Proof. intro H. apply (flatten_preserves Inv1a step_inv1a inv1a_struct fuel x n 
 Theorem flatten_inv2a fuel x n :
   Inv2a (st x) -> not_stuck (flatten fuel x n) -> Inv2a (st (fst (flatten fuel x n))).
 Proof. intro H. apply (flatten_preserves Inv2a step_inv2a inv2a_struct fuel x n H). Qed.
+
+(* the full C01/C02 invariant (containment, pin-wire, reference sets, outer-pin mirror) *)
+Theorem flatten_inv fuel x n :
+  Inv (st x) -> not_stuck (flatten fuel x n) -> Inv (st (fst (flatten fuel x n))).
+Proof.
+  intro H. apply (flatten_preserves Inv (fun s o Hs _ => proj1 (step_inv s o Hs)) inv_struct fuel x n H).
+Qed.
 
 (* ---- uniquify on an already unique design ---- *)
 Fixpoint uniq_clean (fuel : nat) (s : state) (queue : list id) : bool :=
